@@ -76,6 +76,12 @@ def exact_inputs(res, tier, seed, wd):
             inputs.append((gens.reweight(rng, gens.complete(n), ws), 1))
     for g in gens.families(rng, big=(tier != 'quick')):
         inputs.append((g, 1))
+    # beyond the reach of the brute-force oracle: medium graphs validated by the polynomial oracle OptHorton (m > 12)
+    for k in range(120 if tier == 'quick' else 2500):
+        n = rng.randint(12, 18 if tier == 'quick' else 24)
+        m = rng.randint(n, min(n * (n - 1) // 2, 2 * n + (6 if tier == 'quick' else 14)))
+        ws = rng.choice([[1], [1, 2], [1, 2, 3], list(range(1, 20)), list(range(1, 200))])
+        inputs.append((gens.rand_graph(rng, n, m, lambda: rng.choice(ws)), 1))
     return inputs
 
 
